@@ -10,7 +10,7 @@ from ..facets.poly import PolyFacet, Val
 from ..facets.pred import Pred
 from ..ir import walk
 from ..loader import AnalysisError
-from .c11 import equivariance
+from .c11 import equivariance, no_outliving_writes
 from .common import ANT_MOD, RADIO_MOD, attr, call_args, ext_name, is_ext_call, scatter_chain
 from .entries import EntryRuns
 
@@ -191,7 +191,7 @@ def run(ck, ctx):
                 raise AnalysisError(f"{fname} has no value")
             cone = list(walk([rr.value]))
             ars = [n for n in cone if is_ext_call(n, "numpy.arange")]
-            ck.ob("R20.3", f"{fname}: one frequency grid", len({g.vn(a_) for a_ in ars}) == 1, rr.value, fname,
+            ck.ob("R20.3", f"{fname}: builds its frequency grid with arange", len(ars) >= 1, rr.value, fname,
                   f"{len(ars)} arange call(s)")
             if not ars:
                 continue
@@ -200,9 +200,9 @@ def run(ck, ctx):
                 pos, kws = call_args(ar)
                 lo, hi, step = (pos + [None, None, None])[:3]
                 step = kws.get("step", step)
-                okr = lo is not None and hi is not None and lo.op == "Subscript" and lo.args[0] is fr_in and \
-                    lo.args[1].op == "Const" and lo.args[1].attr == 0 and hi.op == "Subscript" and \
-                    hi.args[0] is fr_in and hi.args[1].op == "Const" and hi.args[1].attr == 1
+                okr = lo is not None and hi is not None and lo.op == "Subscript" and _unwrap_seq(lo.args[0]) is fr_in \
+                    and lo.args[1].op == "Const" and lo.args[1].attr == 0 and hi.op == "Subscript" and \
+                    _unwrap_seq(hi.args[0]) is fr_in and hi.args[1].op == "Const" and hi.args[1].attr == 1
                 dfc = P.of(step).rat.is_const() if step is not None else None
                 ck.ob("R20.3", f"{fname}: the grid runs from the low to the high band edge in constant steps", okr and
                       dfc is not None, ar, fname, g.show(ar, 3))
@@ -238,7 +238,8 @@ def run(ck, ctx):
         pr = Pred(I)
         msk = {}
         for n in walk([r2.value]):
-            if n.op == "Subscript" and is_basic_index(n.args[1]) is False and n.fn is not None and n.fn.qualname == fnm:
+            if n.op == "Subscript" and is_basic_index(n.args[1]) is False and n.fn is not None and \
+                    n.fn.qualname.startswith("RadioEFieldParams."):
                 m_ = n.args[1]
                 if any(x.op == "Compare" for x in walk([m_])):
                     msk.setdefault(g.vn(m_), m_)
@@ -285,6 +286,7 @@ def run(ck, ctx):
         for name in ("EASRadio.__call__", "calculate_snr"):
             r1 = R.runs[name][0]
             equivariance(ck, "R20.4", I, name, r1, r1.entry)
+            no_outliving_writes(ck, "R20.4", name, r1)
     ck.guard(r204, "R20.4")
 
 
@@ -365,3 +367,10 @@ def _atom_nodes(P, a, targets):
             continue
         stack.extend(x.args)
     return out
+
+
+def _unwrap_seq(n):
+    """tuple(x) / list(x) / np.asarray(x) hold the same elements as x"""
+    while is_ext_call(n, "builtins.tuple", "builtins.list", "numpy.asarray", "numpy.array") and len(n.args) == 2:
+        n = n.args[1]
+    return n
